@@ -60,6 +60,15 @@ def quote_string(value: str) -> str:
     return f"{quote}{value}{quote}"
 
 
+def quote_identifier(name: str) -> str:
+    """Return _name_ as it must be written for `parse_identifier` to read it back.
+
+    An identifier that is not a plain word (it came from bracketed notation, like
+    `['a b']`) is written in bracketed notation again.
+    """
+    return name if is_property(name) else f"[{quote_string(name)}]"
+
+
 class Path(Expression):
     __slots__ = ("path",)
 
